@@ -1,0 +1,80 @@
+//go:build verif
+
+package gateway
+
+// Contracts checked by /verif/govc (comment-only file; build tag verif).
+
+// ---------------------------------------------------------------------------
+// C10 — routes attach only where kind, namespace and section rules allow
+
+//@ global invariant errs: errRouteNotAllowed != nil
+
+//@ func init
+//@   props C10
+//@ end
+
+// allowedRoutes.kinds: empty admits every kind, otherwise some entry of the
+// gateway group (or no group) must name the route's kind
+//@ spec func kindAdmitted(kinds []gatewayv1.RouteGroupKind, routeKind string) bool = len(kinds) == 0 ||
+//@     exists k int :: 0 <= k && k < len(kinds) && (kinds[k].Group == nil || *kinds[k].Group == gatewayGroup) && kinds[k].Kind == routeKind
+
+//@ func checkListenerAllowedKind
+//@   props C10
+//@   modifies nothing
+//@   ensures iff: (result == nil) == kindAdmitted(kinds, routeSource.kind)
+//@   loop 1 invariant none: 0 <= $idx(1) && $idx(1) <= len(kinds) && forall k int :: 0 <= k && k < $idx(1) ==>
+//@       !((kinds[k].Group == nil || *kinds[k].Group == gatewayGroup) && kinds[k].Kind == routeSource.kind)
+//@ end
+
+//@ count LSel    = v1.LabelSelectorAsSelector
+//@ count GetNS   = (types.Cache).GetNamespace
+//@ count Matches = (labels.Selector).Matches
+
+// allowedRoutes.namespaces: Same needs the gateway's namespace, All admits,
+// Selector admits iff the selector parses, the namespace is found and matches
+//@ func (*converter).checkListenerAllowedNamespace
+//@   props C10
+//@   ensures unset:    namespaces == nil || old(namespaces.From) == nil ==> result != nil
+//@   ensures same:     namespaces != nil && old(namespaces.From) != nil && old(*namespaces.From) == gatewayv1.NamespacesFromSame ==>
+//@       (result == nil) == old(routeSource.namespace == gatewaySource.namespace)
+//@   ensures all:      namespaces != nil && old(namespaces.From) != nil && old(*namespaces.From) == gatewayv1.NamespacesFromAll ==> result == nil
+//@   ensures selector: namespaces != nil && old(namespaces.From) != nil && old(*namespaces.From) == gatewayv1.NamespacesFromSelector ==>
+//@       (result == nil) == (old(namespaces.Selector) != nil && calls(LSel) == 1 && last(LSel).1 == nil && calls(GetNS) == 1 && last(GetNS).1 == nil && calls(Matches) == 1 && last(Matches))
+//@   ensures other:    namespaces != nil && old(namespaces.From) != nil && old(*namespaces.From) != gatewayv1.NamespacesFromSame && old(*namespaces.From) != gatewayv1.NamespacesFromAll
+//@       && old(*namespaces.From) != gatewayv1.NamespacesFromSelector ==> result != nil
+//@   at call GetNamespace#1 assert route-ns: $arg1 == routeSource.namespace
+//@ end
+
+//@ count KindChk = checkListenerAllowedKind
+//@ count NsChk   = (*converter).checkListenerAllowedNamespace
+
+//@ func (*converter).checkListenerAllowed
+//@   props C10
+//@   ensures iff: (result == nil) == (listener != nil && old(listener.AllowedRoutes) != nil && calls(KindChk) == 1 && last(KindChk) == nil && calls(NsChk) == 1 && last(NsChk) == nil)
+//@   at call checkListenerAllowedKind#1 assert args: $arg0 == routeSource && $arg1 == listener.AllowedRoutes.Kinds
+//@   at call checkListenerAllowedNamespace#1 assert args: $arg1 == gatewaySource && $arg2 == routeSource && $arg3 == listener.AllowedRoutes.Namespaces
+//@ end
+
+//@ count Allowed = (*converter).checkListenerAllowed
+
+// nothing is created for a listener unless the section name matches and the
+// listener admits the route
+//@ func (*converter).syncHTTPRouteGateway
+//@   props C10
+//@   at call createBackend#1 assert admitted: calls(Allowed) >= 1 && last(Allowed) == nil && before(Allowed, sectionName == nil || *sectionName == listener.Name)
+//@   at call checkListenerAllowed#1 assert args: $arg1 == gatewaySource && $arg3 == &listener
+//@ end
+
+//@ func (*converter).syncTCPRouteGateway
+//@   props C10
+//@   at call createBackend#1 assert admitted: calls(Allowed) >= 1 && last(Allowed) == nil && before(Allowed, sectionName == nil || *sectionName == listener.Name)
+//@   at call checkListenerAllowed#1 assert args: $arg1 == gatewaySource && $arg3 == &listener
+//@ end
+
+// only Gateway parents of the gateway group are followed; the gateway's
+// namespace defaults to the route's
+//@ func (*converter).syncRoute
+//@   props C10
+//@   at call newGatewaySource#1 assert kind: parentGroup == gatewayGroup && parentKind == gatewayKind
+//@   at call newGatewaySource#1 assert ns:   $arg1 == ((parentRef.Namespace != nil && *parentRef.Namespace != "") ? *parentRef.Namespace : routeSource.namespace)
+//@ end
